@@ -33,11 +33,12 @@ FormCoef(f) == SignOf(f.s1) * SignOf(f.s2)
 FormText(f) == f.s1 \o (IF f.br THEN "(" \o f.s2 \o f.body \o ")" ELSE f.body)
 
 ----------------------------------------------------------------------------
-(* valuations: two fixed integer environments; quotients are integral in both *)
+(* valuations: two fixed integer environments; every value is a multiple of 1/2 in both, and Den(.) is TWICE *)
+(* the value, so that x/y and its reciprocal y/x are both representable and distinguishable                  *)
 Vals == << [x |-> 6,  y |-> 3, a |-> 5,  b |-> 2, c |-> 4],
            [x |-> -4, y |-> 2, a |-> -3, b |-> 7, c |-> -5] >>
 
-DenText(s, v) ==
+DenText1(s, v) ==
     CASE s = ""        -> 0
       [] s = "x"       -> v.x
       [] s = "y"       -> v.y
@@ -67,6 +68,8 @@ DenText(s, v) ==
       [] s = "-(x-y)"  -> 0 - (v.x - v.y)
       [] s = "+ 2"     -> 2
       [] s = "a*(b+c)" -> v.a * (v.b + v.c)
+
+DenText(s, v) == IF s = "y/x" THEN (2 * v.y) \div v.x ELSE 2 * DenText1(s, v)
 
 ----------------------------------------------------------------------------
 (* A term as the code stores it *)
